@@ -181,7 +181,7 @@ func init() {
 		ruleRetain(r)
 		// a collector that is wrong sequentially also disturbs concurrent callers;
 		// files the collector removes/truncates may be lent out by the file cache
-		r.support(grpGC, grpCache, grpPools, []string{"atomic-rmw", "published-bytes-immutable", "commit-order", "flush-callers", "splice", "match-last"})
+		r.support(grpGC, grpCache, grpPools, []string{"atomic-rmw", "published-bytes-immutable", "commit-order", "flush-callers", "splice", "match-last", "pos-codec", "go-handshake"})
 	},
 		"Decides structural necessary conditions of 'concurrent GC never disturbs callers', not the behaviour over all interleavings: no unprotected conflicting access pair between the public calls, the flusher and both collectors (lockset analysis incl. the GC roots); lock order acyclic; index GC marks only on the busy()==false edge, busy under bucketLk; GC only touches files whose number is dominated by a != current test against a snapshot taken under flushLock (and, for the free-file scan, taken before the bucket scan); the freelist hand-over runs in one exclusive flushLock section; relocation hands stable buffers to the primary; relocation may re-point a key only if the index still names the moved record (compare-and-swap shape) — violated on the current tree and reported as known finding KF-2. Not covered: the reader-holds-position window (Index.Get dereferences a bucket position after releasing the lock), timing.")
 }
